@@ -21,12 +21,20 @@
    recorded commits; [c13_real_restore_full]: the complete file restores to exactly what was
    written; [c13_state_bad_version]: another version is refused.  WireState's encoder and decoder
    are diffed against real snapshots (s2 removed) parsed by the real readers (engine wire).
-   NOT modelled (trusted, DESIGN.md section 7): the s2 framing around both streams.  Assumed of
-   it: a prefix of its output decodes to a prefix of its input and then ends or errors.  This and
-   the panic / hang freedom of the real readers are checked by the trunc engine: every prefix
-   (every byte in the thorough tier) of real snapshot and log files is restored. *)
+   [c13_s2_prefix], [c13_file_prefix_restores]: the s2 FRAMING around both streams is modelled
+   (S2Frame.v: chunks of type byte, 3-byte length and body; the reader consumes whole chunks, a cut
+   header or body is an error, a cut on a chunk boundary a clean end): for every prefix of a
+   snapshot file, what the reader delivers is the payload of the chunks wholly inside the prefix,
+   and restoring it fails or yields the complete state plus a prefix of the commits.  The framing
+   model is diffed against the real s2 reader on real snapshot files and cuts (engine wire).
+   NOT modelled (trusted, DESIGN.md section 7): what a chunk's body decodes to (the s2 block
+   compressor and CRC) - an arbitrary function of the chunk in S2Frame.v; that the two readers the
+   real Restore stacks on one file (state, then log) together see the file as ONE framed stream
+   (the first does not read past its last chunk).  This and the panic / hang freedom of the real
+   readers are checked by the trunc engine: every prefix (every byte in the thorough tier) of real
+   snapshot and log files is restored. *)
 From Coq Require Import NArith List.
-From ColumnV Require Import Wire WireCommit WireState.
+From ColumnV Require Import Wire WireCommit WireState S2Frame.
 Import ListNotations.
 Local Open Scope N_scope.
 
@@ -109,3 +117,36 @@ Proof.
   - unfold state_ok, body_ok, schunk_ok, wbuffer_ok, bheaders_ok, blob_ok, u32. cbn. repeat split; try reflexivity; repeat constructor.
   - unfold commit_ok. cbn. repeat split; try reflexivity. constructor.
 Qed.
+
+Theorem c13_s2_prefix : forall body_dec cs p fuel hdr,
+  Forall (chunk_ok body_dec) cs -> starts_ok hdr cs -> prefix_of p (stream_enc cs) -> (length p <= fuel)%nat ->
+  exists k st, unframe body_dec fuel hdr p = (payloads body_dec (firstn k cs), st) /\ st <> Corrupt /\
+               (st = End <-> p = stream_enc (firstn k cs)).
+Proof. intros body_dec cs. exact (unframe_prefix body_dec cs). Qed.
+Print Assumptions c13_s2_prefix.
+
+Theorem c13_file_prefix_restores : forall body_dec (st : state) (cs : list commit) (chunks : list wchunk) p,
+  state_ok st -> Forall commit_ok cs -> Forall (chunk_ok body_dec) chunks -> starts_ok false chunks ->
+  payloads body_dec chunks = state_enc st ++ log_bytes commit_enc cs ->
+  prefix_of p (stream_enc chunks) ->
+  let delivered := fst (unframe body_dec (length p) false p) in
+  restore_bytes state_dec commit_dec delivered = None \/
+  exists k, restore_bytes state_dec commit_dec delivered = Some (st, firstn k cs).
+Proof. exact file_prefix_restores. Qed.
+Print Assumptions c13_file_prefix_restores.
+
+Theorem c13_s2_full : forall body_dec cs,
+  Forall (chunk_ok body_dec) cs -> starts_ok false cs ->
+  unframe body_dec (length (stream_enc cs)) false (stream_enc cs) = (payloads body_dec cs, End).
+Proof. exact unframe_full. Qed.
+Print Assumptions c13_s2_full.
+
+(* non-vacuity: identifier chunk + one uncompressed data chunk (body = 4 checksum bytes + payload) *)
+Example c13_s2_example :
+  let dec := fun (ty : N) (body : list N) => if ty =? 255 then Some [] else Some (skipn 4 body) in
+  let cs : list wchunk := [(255, [83; 50; 115; 84; 119; 79]); (1, [0; 0; 0; 0; 7; 8; 9])] in
+  Forall (chunk_ok dec) cs /\ starts_ok false cs /\
+  unframe dec 30 false (stream_enc cs) = ([7; 8; 9], End) /\
+  unframe dec 30 false (firstn 15 (stream_enc cs)) = ([], Cut) /\
+  unframe dec 30 false (firstn 10 (stream_enc cs)) = ([], End).
+Proof. cbn zeta. split; [|split; [right; reflexivity|vm_compute; auto]]. repeat constructor; cbn; discriminate. Qed.
